@@ -14,6 +14,7 @@ Trees are written in prefix notation, one token per node, tokens separated by bl
 * `simp evaluate <binding>* T <tree>` with bindings `k:<hex>=<int>` (known), `d:<hex>` (deferred),
   `r:<hex>` (register); every other name is not found
   → `ok <0|1> <cause hex | none> <tree>` | `err nosuch <hex>` | `err badtype ..` | `err overflow ..` | `panic`
+* `simp evaluatet …`        → like `evaluate`, but `err nosuch <hex> <tree>` carries the tree the call leaves behind
 * `simp spec <tree>`       → `ok <int>` | `err <kind>` (the Layer-A specification `Arith.eval`)
 * `simp valc <binding>* T <tree>` → `some <int>` | `none`
 -/
@@ -117,6 +118,14 @@ def showRes : Res (Bool × Arg) → String
   | .err e => showErr e
   | .panic => "panic"
 
+def showEvT : EvT Arg → String
+  | .ok ev a =>
+    let cause := match ev.cause with | some b => hexOfBytes b | none => "none"
+    s!"ok {if ev.changed then 1 else 0} {cause} {render a}"
+  | .nosuch n a => s!"err nosuch {hexOfBytes n} {render a}"
+  | .err e => showErr e
+  | .panic => "panic"
+
 def showERes : ERes (Ev × Arg) → String
   | .ok (ev, a) =>
     let cause := match ev.cause with | some b => hexOfBytes b | none => "none"
@@ -179,6 +188,7 @@ def handle : List String → String
     | some a => showRes (neutralize a)
     | none => "bad-op"
   | "evaluate" :: ts => withEnv ts fun bs a => showERes (evaluate (lookupOf bs) (isRegOf bs) a)
+  | "evaluatet" :: ts => withEnv ts fun bs a => showEvT (evaluateT (lookupOf bs) (isRegOf bs) a)
   | "valc" :: ts => withEnv ts fun bs a => match valC (envOf bs) a with
     | some v => s!"some {v}"
     | none => "none"
